@@ -42,12 +42,14 @@ EvViol(r) ==
      [] r.ev = "loop" -> IF ~stopped /\ r.started # last'.started THEN {"C17_OneLoopPerGroup"} ELSE {}
      [] r.ev = "loopupdate" -> IF ~stopped /\ r.started # last'.started THEN {"C17_OneLoopPerGroup"} ELSE {}
      [] r.ev = "fill" -> IF r.res # last'.res \/ SeqToSet(r.mem) # last'.mem THEN {"HARNESS_FillResult"} ELSE {}
-     [] r.ev = "end" -> IF r.res \notin {"loop", IF last'.res = "ok" THEN "ok" ELSE "notok"} THEN {"C17_UpdateResult"} ELSE {}
+     [] r.ev = "end" -> {}   \* (what Update returns is not in the statement: compared as drift below)
      [] r.ev = "get" -> IF r.has # last'.has \/ SeqToSet(r.mem) # last'.mem THEN {"C17_CacheContents"} ELSE {}
      [] r.ev = "ask" -> (IF r.err # last'.err THEN {"C17_AskError"} ELSE {})
                         \cup (IF ~r.err /\ SeqToSet(r.ans) # last'.ans
                               THEN {IF last'.src = "cache" THEN "C17_OnlyWhatWasSaid" ELSE "C17_PartlyCachedAsksDirectory"} ELSE {})
      [] OTHER -> {}
+
+EvDrift(r) == IF r.ev = "end" /\ r.res \notin {"loop", IF last'.res = "ok" THEN "ok" ELSE "notok"} THEN {"update_result"} ELSE {}
 
 Say(vs, dr) == /\ IF dr = {} THEN TRUE ELSE PrintT(<<"DRIFT", l, dr>>)
                /\ IF vs = {} THEN lost' = FALSE ELSE PrintT(<<"VIOL", l, vs>>) /\ lost' = TRUE
@@ -77,7 +79,7 @@ TStep ==
            /\ said' = [g \in Groups |-> {}] /\ last' = [op |-> "init"]
            /\ lost' = FALSE
         ELSE IF lost THEN UNCHANGED <<vars, lost>>
-        ELSE Act(r) /\ Say(EvViol(r) \cup StateViol(r), StateDrift(r))
+        ELSE Act(r) /\ Say(EvViol(r) \cup StateViol(r), StateDrift(r) \cup EvDrift(r))
    /\ l' = l + 1
 
 TSpec == TInit /\ [][TStep]_tvars
